@@ -46,16 +46,16 @@ Definition count_fail (ls : list label) : nat :=
   length (filter (fun l => match l with Lead _ false | Deact _ _ false => true | _ => false end) ls).
 
 Definition final_live (nn : nat) (ls : list label) : option (list (nat * nat)) :=
-  match run state0 ls with Some s => Some (live_nodes nn s) | None => None end.
+  match run false state0 ls with Some s => Some (live_nodes nn s) | None => None end.
 
 Lemma witness_claimless_eval :
   final_live 3 witness_claimless = Some [(1, 0); (2, 0)] /\ count_fail witness_claimless = 1
-  /\ (match run state0 witness_claimless with Some s => r_get gk (sreg s) | None => None end) = Some 1.
+  /\ (match run false state0 witness_claimless with Some s => r_get gk (sreg s) | None => None end) = Some 1.
 Proof. vm_compute. auto. Qed.
 
 Lemma witness_late_remove_eval :
   final_live 2 witness_late_remove = Some [(0, 1)] /\ count_fail witness_late_remove = 0
-  /\ (match run state0 witness_late_remove with Some s => r_get gk (sreg s) | None => Some 99 end) = None
+  /\ (match run false state0 witness_late_remove with Some s => r_get gk (sreg s) | None => Some 99 end) = None
   /\ final_live 2 witness_late_remove_2 = Some [(0, 1); (1, 0)].
 Proof. vm_compute. auto. Qed.
 
@@ -67,10 +67,10 @@ Proof.
 Qed.
 
 Theorem refuted_at_most_one :
-  exists ls s, run state0 ls = Some s /\ count_fail ls = 1 /\ ~ at_most_one_active s.
+  exists ls s, run false state0 ls = Some s /\ count_fail ls = 1 /\ ~ at_most_one_active s.
 Proof.
   exists witness_claimless.
-  destruct (run state0 witness_claimless) as [s|] eqn:E; [|vm_compute in E; discriminate].
+  destruct (run false state0 witness_claimless) as [s|] eqn:E; [|vm_compute in E; discriminate].
   exists s. split; auto. split; [vm_compute; auto|].
   intros H.
   assert (L : live_nodes 3 s = [(1, 0); (2, 0)]).
@@ -80,8 +80,8 @@ Proof.
   destruct (H 1 2 0 0 A B) as (C & _). discriminate.
 Qed.
 
-Lemma run_app : forall a b s, run s (a ++ b) = match run s a with Some s' => run s' b | None => None end.
-Proof. induction a; simpl; intros; auto. destruct (step s a); auto. Qed.
+Lemma run_app : forall fx a b s, run fx s (a ++ b) = match run fx s a with Some s' => run fx s' b | None => None end.
+Proof. induction a; simpl; intros; auto. destruct (step fx s a); auto. Qed.
 
 Lemma quiescent_dec_sound : forall s nn,
   (forall n, nn <= n -> nodes s n = nstate0) ->
@@ -97,10 +97,10 @@ Qed.
 
 (* no failure at all: at quiescence a live instance exists that the registry does not name *)
 Theorem refuted_registry_names_holder :
-  exists ls s, run state0 ls = Some s /\ count_fail ls = 0 /\ quiescent s /\ ~ registry_names_holder s.
+  exists ls s, run false state0 ls = Some s /\ count_fail ls = 0 /\ quiescent s /\ ~ registry_names_holder s.
 Proof.
   exists witness_late_remove.
-  destruct (run state0 witness_late_remove) as [s|] eqn:E; [|vm_compute in E; discriminate].
+  destruct (run false state0 witness_late_remove) as [s|] eqn:E; [|vm_compute in E; discriminate].
   exists s. split; auto. split; [vm_compute; auto|].
   generalize witness_late_remove_eval. unfold final_live. rewrite E. intros (A & _ & B & _).
   split.
@@ -113,10 +113,10 @@ Qed.
 
 (* the same schedule continued by a send on node 1: two live instances with no failure injected *)
 Theorem refuted_at_most_one_no_failure :
-  exists ls s, run state0 ls = Some s /\ count_fail ls = 0 /\ ~ at_most_one_active s.
+  exists ls s, run false state0 ls = Some s /\ count_fail ls = 0 /\ ~ at_most_one_active s.
 Proof.
   exists witness_late_remove_2.
-  destruct (run state0 witness_late_remove_2) as [s|] eqn:E; [|vm_compute in E; discriminate].
+  destruct (run false state0 witness_late_remove_2) as [s|] eqn:E; [|vm_compute in E; discriminate].
   exists s. split; auto. split; [vm_compute; auto|].
   generalize witness_late_remove_eval. unfold final_live. rewrite E. intros (_ & _ & _ & A). inversion A as [L].
   intros H.
@@ -130,7 +130,7 @@ Fixpoint guard_profile (s : state) (ls : list label) : nat * nat :=
   match ls with
   | [] => (0, 0)
   | l :: t =>
-      let '(a, b) := match step s l with Some s' => guard_profile s' t | None => (0, 0) end in
+      let '(a, b) := match step false s l with Some s' => guard_profile s' t | None => (0, 0) end in
       ((if claimless s l then 1 else 0) + a, (if overlap s l then 1 else 0) + b)
   end.
 
